@@ -153,6 +153,8 @@ def step (st : St) (args : List String) : St × String :=
             | .panic => "panic"
             | .found topics => renderTopics topics)
         | none => (st, "bad-op")
+      -- replies are values: what was handed out earlier is not changed by anything that happens later
+      | "kept", [] => (some s, "kept=same")
       | _, _ => (st, "bad-op")
   | _ => (st, "bad-op")
 
@@ -324,6 +326,17 @@ def stepC (st : CSt) (args : List String) : CSt × String :=
         | none => "gs=0 complete=3f800000 count=0 total=0 maxlag=- parts=-"
         | some gs => renderGroupStatus (if showAll == "1" then gs else Group.filterView gs)
       (st', s!"rc={c} rg={g} {out} ~path={repr p}" ++ (if viol then " ~specviol=D16" else ""))
+    | _, _, _ => (st, "bad-op")
+  | ["cqdup", now, c, g, showAll] =>
+    -- two requests for one group at the same time: the second is answered like the first (from the evaluation the
+    -- first one caused, or from one of its own on the same storage state)
+    match parseInt? now, st.ccfg, st.store with
+    | some now, some _, some _ =>
+      let (st', result, p, _) := statusQuery st now c g
+      let out := match result with
+        | none => "gs=0 complete=3f800000 count=0 total=0 maxlag=- parts=-"
+        | some gs => renderGroupStatus (if showAll == "1" then gs else Group.filterView gs)
+      (st', s!"rc={c} rg={g} {out} second={out.replace " " "~"} ~path={repr p}")
     | _, _, _ => (st, "bad-op")
   | ["cbarrier"] => (st, "ok")
   | ["cstop"] => (st, "ok")
